@@ -1136,6 +1136,10 @@ VmTrap vm_core_execute(VmState *vm) {
                 vm_release(&vm->heap, arr);
                 return trap_error(vm, VM_ERR_TYPE_ERROR, "ARR_POP: not an array");
             }
+            if (arr.as.array->length == 0) {
+                vm_release(&vm->heap, arr);
+                return trap_error(vm, VM_ERR_OUT_OF_BOUNDS, "ARR_POP: array is empty");
+            }
             NanoValue v = vm_array_pop(arr.as.array);
             stack_push(vm, v);
             stack_push(vm, arr);
@@ -1149,7 +1153,12 @@ VmTrap vm_core_execute(VmState *vm) {
                 vm_release(&vm->heap, arr);
                 return trap_error(vm, VM_ERR_TYPE_ERROR, "ARR_GET: not an array");
             }
-            uint32_t idx = (uint32_t)(idx_v.tag == TAG_INT ? idx_v.as.i64 : 0);
+            int64_t idx64 = idx_v.tag == TAG_INT ? idx_v.as.i64 : 0;
+            if (idx64 < 0 || idx64 >= (int64_t)arr.as.array->length) {
+                vm_release(&vm->heap, arr);
+                return trap_error(vm, VM_ERR_OUT_OF_BOUNDS, "ARR_GET: index %lld out of range", (long long)idx64);
+            }
+            uint32_t idx = (uint32_t)idx64;
             NanoValue v = vm_array_get(arr.as.array, idx);
             vm_retain(v);
             vm_release(&vm->heap, arr);
@@ -1166,7 +1175,13 @@ VmTrap vm_core_execute(VmState *vm) {
                 vm_release(&vm->heap, v);
                 return trap_error(vm, VM_ERR_TYPE_ERROR, "ARR_SET: not an array");
             }
-            uint32_t idx = (uint32_t)(idx_v.tag == TAG_INT ? idx_v.as.i64 : 0);
+            int64_t idx64 = idx_v.tag == TAG_INT ? idx_v.as.i64 : 0;
+            if (idx64 < 0 || idx64 >= (int64_t)arr.as.array->length) {
+                vm_release(&vm->heap, arr);
+                vm_release(&vm->heap, v);
+                return trap_error(vm, VM_ERR_OUT_OF_BOUNDS, "ARR_SET: index %lld out of range", (long long)idx64);
+            }
+            uint32_t idx = (uint32_t)idx64;
             vm_release(&vm->heap, vm_array_get(arr.as.array, idx));
             vm_array_set(arr.as.array, idx, v);
             stack_push(vm, arr);
@@ -1208,7 +1223,12 @@ VmTrap vm_core_execute(VmState *vm) {
                 vm_release(&vm->heap, arr);
                 return trap_error(vm, VM_ERR_TYPE_ERROR, "ARR_REMOVE: not an array");
             }
-            uint32_t idx = (uint32_t)(idx_v.tag == TAG_INT ? idx_v.as.i64 : 0);
+            int64_t idx64 = idx_v.tag == TAG_INT ? idx_v.as.i64 : 0;
+            if (idx64 < 0 || idx64 >= (int64_t)arr.as.array->length) {
+                vm_release(&vm->heap, arr);
+                return trap_error(vm, VM_ERR_OUT_OF_BOUNDS, "ARR_REMOVE: index %lld out of range", (long long)idx64);
+            }
+            uint32_t idx = (uint32_t)idx64;
             vm_array_remove(arr.as.array, idx);
             stack_push(vm, arr);
             break;
